@@ -44,8 +44,8 @@ claim("C23", "model_checking",
 
 
 claim("C01", "other",
-      "Slice (obligation O2 of the decomposition in DESIGN 5/C01): decides, for a 3-voter cluster with arbitrary replica logs under the stated reachability invariant and every responder quorum, whether the recovery a new leader runs inside Install (recoverQuorumPrefix, and the one-round rule selectRecoveryPrefix) keeps an acknowledged entry. It does not: known finding C01-F1 (fewer than Q responders hold the acknowledged identity); outside that pattern the obligation is unsat. Composition into the history-level statement is a paper argument.",
-      "Logs up to length 2 (3 thorough); probe dispatcher is a synchronous fake over the cluster summary; identities are an injective function of the variant prefix (stands for the hash chain). Repair, barrier, durable round and real transport are not encoded here. " + TB)
+      "Slice (obligation O2 of the decomposition in DESIGN 5/C01): decides, for a 3-voter cluster with arbitrary replica logs under the stated reachability invariant and every responder quorum, whether the recovery a new leader runs inside Install (recoverQuorumPrefix, and the one-round rule selectRecoveryPrefix) keeps an acknowledged entry. It does not: known finding C01-F1 (fewer than Q responders hold the acknowledged identity); outside that pattern the obligation is unsat. Further obligations: O3 - the real repairQuorumPrefix on the real memory store never rewrites or cuts below the local committed prefix, ends exactly on the selected prefix with the supporters' identities and content, and fails closed on 12 malformed selections / pages / store refusals; O4 - the real quorumLog.Install becomes ready only after probes, repair and a current-term barrier durable locally and on a follower, in that order, and any failure leaves admission closed; O5 - the failover planner only names a healthy ISR member whose proof covers the required prefix; O6 - every gate admits only majority write quorums. Composition into the history-level statement is a paper argument.",
+      "Logs up to length 2 (3 thorough); probe dispatcher is a synchronous fake over the cluster summary; identities are an injective function of the variant prefix (stands for the hash chain). The durable round (C03), the barrier dispatch (C04), the Pebble-backed store and real transport are not encoded here. " + TB)
 claim("C06", "model_checking",
       "One inductive step: from an arbitrary ChannelState satisfying the stated invariant, every machine transition (ApplyMeta, ProposeAppend(Batch), ApplyAppendStored, ApplyQuorumCommitted, ApplyFollowerAck, CancelAppendWaiter, AbortAppendBatchProposal) preserves the invariant, never lowers HW within a fence, answers quorum waiters only when HW covers them, answers each op at most once, ignores stale-fence results and rejects older/same-epoch-leader-switch metadata.",
       "Bounded sizes (<=3 ISR, <=2 pending waiters of 1-2 records, op ids/node ids concrete), all scalars 64-bit symbolic; follower ack offset <= LEO is the reactor's precondition (read at its three call sites). Histories follow by induction (paper). " + TB)
